@@ -171,18 +171,46 @@ def run():
         "the sub-group count as a free 64-bit symbol, and of GroupConfig::{group_filter, rf_over, rf_under}; z3 decides "
         "equality with the documented semantics for all option values.  Root spelling: the terms that become isolate roots "
         "must pass through the same canonicalisation as scanned paths.  Counterexamples are replayed through the CLI.",
-        assumptions=["the sub-group count itself (FileSubGroup::group, IndexMap) is a free symbol: hard-link / symlink sub-grouping is outside the claim"],
-        outside=["hard-link / symlink sub-grouping by file id (IndexMap + SipHash: not encodable, see DESIGN.md)",
-                 "symlink target ids (file.rs)", "the walk"])
+        assumptions=["IndexMap is modelled as an insertion-ordered map (reference model in lib/mapsum.py); file ids are symbolic"],
+        outside=["symlink target ids (file.rs)", "the walk", "groups of more than 3 files / 2 roots (thorough: 4 x 3)"])
     ctx = oblig.Ctx()
+    oblig.install_battery(rep, ctx, ["c06_battery"])
 
     def finish(o, scenario):
         if o.verdict == "violated" and scenario:
             replay(o, ctx, scenario)
+            if o.verdict == "inconclusive":
+                # the scenario-specific replay did not show it: let the counting battery (install_battery) try
+                o.verdict = "violated"
         rep.add(o)
     filter_obligations(rep, ctx, "C06", finish)
     config_obligations(rep, ctx, finish)
+    sub_group_obligations(rep, ctx)
     return rep
+
+
+def sub_group_obligations(rep, ctx):
+    """the sub-grouping itself (FileSubGroup::group with an IndexMap model against a declarative reference), the counts built on it
+    and Path::is_prefix_of, which decides what lies under an --isolate root (shared with C14 / C08)"""
+    from common import tier
+    from obligations import path_kernels, subgroups
+    prog = ctx.lib
+    engs = []
+    fn = lambda: sorted({x for e in engs for x in oblig.fnames(e)})
+    try:
+        rep.add(subgroups.group_obligations(rep, prog, engs, fn, tier()))
+        for o in subgroups.count_obligations(prog, engs, fn, tier()):
+            rep.add(o)
+    except Inconclusive as e:
+        o = Obligation("sub-grouping", "E2 mirsym/z3")
+        o.verdict, o.detail = "inconclusive", str(e)
+        rep.add(o)
+    try:
+        path_kernels.is_prefix_of_obligation(rep, prog)
+    except Inconclusive as e:
+        o = Obligation("Path::is_prefix_of", "E2 mirsym/z3")
+        o.verdict, o.detail = "inconclusive", str(e)
+        rep.add(o)
 
 
 def cli_groups(binary, args, cwd, env):
